@@ -113,11 +113,31 @@ int expect(const Geo& g, const Point64& p, double ad, JoinType jt, EndType et, d
 }
 
 // route by which the offset is obtained (chosen per case): 0 Execute(delta, Paths64&) on a fresh object, 1 Execute into a
-// PolyTree64 (flattened), 2 one object executed into a tree first and into paths afterwards, 3 the InflatePaths function
+// PolyTree64 (flattened), 2 one object executed into a tree first and into paths afterwards, 3 the InflatePaths function,
+// 4 with a distant decoy group added first
 int g_route = 0;
 Paths64 offset(const Paths64& paths, double delta, JoinType jt, EndType et, double ml, double at, bool rev) {
   if (g_route == 3 && !rev) return InflatePaths(paths, delta, jt, et, ml, at);
   ClipperOffset co(ml, at, false, rev);
+  if (g_route == 4) {
+    // a distant decoy group (round-joined, positively oriented square) is added BEFORE the paths under test; the result
+    // near the paths must not depend on it.  The decoy's own offset is dropped from the result by position.
+    Rect64 bb = GetBounds(paths);
+    double ad = std::fabs(delta), reach = ad * std::max(ml, 2.0) * 4 + 100;
+    int64_t S = (int64_t)std::max(200.0, 6 * ad), x0 = bb.right + (int64_t)(4 * reach) + 4 * S;
+    if (x0 + S < (int64_t(1) << 41)) {
+      Path64 sq = {Point64(x0, bb.top), Point64(x0 + S, bb.top), Point64(x0 + S, bb.top + S), Point64(x0, bb.top + S)};
+      // (a negatively oriented decoy would switch the clean-up union to the Negative fill rule and discard the open
+      // paths' offsets altogether: that is the listed finding KF-C12-c, not what this route is after)
+      co.AddPath(sq, JoinType::Round, EndType::Polygon);
+      co.AddPaths(paths, jt, et);
+      Paths64 all, sol;
+      co.Execute(delta, all);
+      int64_t cut = bb.right + (x0 - bb.right) / 2;
+      for (auto& p : all) if (GetBounds(p).left < cut) sol.push_back(p);
+      return sol;
+    }
+  }
   co.AddPaths(paths, jt, et);
   Paths64 sol;
   if (g_route == 1 || g_route == 2) {
@@ -172,30 +192,37 @@ Verdict judge(const Case& c) {
       Paths64 solR = offset(reversed, ad, jt, et, ml, at, rev);
       v.evals += 3;
       std::string cfg = std::string(" [|delta|=") + std::to_string(ad) + "," + OFS::jtName(jt) + "," + OFS::etName(et) + ",miter_limit=" + std::to_string(ml) + ",arc_tol=" + std::to_string(at) + ",rev=" + std::to_string((int)rev) + "]";
-      if (O::canon(solP) != O::canon(solN)) { v.fail("results for +delta and -delta differ" + cfg); return v; }
+      // with a decoy group in the call (route 4) the decoy's own offset differs between +delta and -delta, and with it the
+      // scanbeams of the clean-up union: identity is then not implied, and both results are judged against the model instead
+      if (g_route != 4 && O::canon(solP) != O::canon(solN)) { v.fail("results for +delta and -delta differ" + cfg); return v; }
       std::vector<O::Seg> rsegs = O::segsOf(solP), rsegs2 = O::segsOf(solR);
-      for (auto& p : pts) {
-        O::Wn w = O::winding(p, solP);
-        // (ii) region independent of path direction (outside 2.5 units of either result boundary)
-        if (O::distToSegs(p, rsegs) > 2.5L && O::distToSegs(p, rsegs2) > 2.5L) {
-          O::Wn w2 = O::winding(p, solR);
-          if (w2.w != w.w) { v.fail("region depends on path direction at " + O::ptStr(p) + cfg); return v; }
+      for (int side = 0; side < (g_route == 4 ? 2 : 1); ++side) {
+        const Paths64& S = side ? solN : solP;
+        double sgn = side ? -1.0 : 1.0;
+        std::string cfgS = side ? cfg + " (executed with -delta)" : cfg;
+        for (auto& p : pts) {
+          O::Wn w = O::winding(p, S);
+          // (ii) region independent of path direction (outside 2.5 units of either result boundary)
+          if (side == 0 && O::distToSegs(p, rsegs) > 2.5L && O::distToSegs(p, rsegs2) > 2.5L) {
+            O::Wn w2 = O::winding(p, solR);
+            if (w2.w != w.w) { v.fail("region depends on path direction at " + O::ptStr(p) + cfg); return v; }
+          }
+          int e = expect(g, p, ad, jt, et, ml, at);
+          if (e < 0) { ST.count("samples_in_band"); continue; }
+          int want = e ? sign : 0;
+          if (w.w == want && !w.on) continue;
+          bool persists = !OFS::isolatedInDelta(ad, 0.55, [&](double d2) {
+            int e2 = expect(g, p, d2, jt, et, ml, at);
+            if (e2 < 0) return -1;
+            O::Wn w2 = O::winding(p, offset(paths, sgn * d2, jt, et, ml, at, rev));
+            return (w2.w != (e2 ? sign : 0) || w2.on) ? 1 : 0;
+          });
+          if (!persists) { v.known = "KF-ENG-a"; ST.count("mismatch_vanishing_under_delta_perturbation"); continue; }
+          char buf[120];
+          snprintf(buf, sizeof buf, " at distance %.3Lf from the paths", distTo(g, p));
+          v.fail("sample " + O::ptStr(p) + buf + ": solution winding " + std::to_string(w.w) + (w.on ? " (on boundary)" : "") + ", expected " + std::to_string(want) + cfgS);
+          return v;
         }
-        int e = expect(g, p, ad, jt, et, ml, at);
-        if (e < 0) { ST.count("samples_in_band"); continue; }
-        int want = e ? sign : 0;
-        if (w.w == want && !w.on) continue;
-        bool persists = !OFS::isolatedInDelta(ad, 0.55, [&](double d2) {
-          int e2 = expect(g, p, d2, jt, et, ml, at);
-          if (e2 < 0) return -1;
-          O::Wn w2 = O::winding(p, offset(paths, d2, jt, et, ml, at, rev));
-          return (w2.w != (e2 ? sign : 0) || w2.on) ? 1 : 0;
-        });
-        if (!persists) { v.known = "KF-ENG-a"; ST.count("mismatch_vanishing_under_delta_perturbation"); continue; }
-        char buf[120];
-        snprintf(buf, sizeof buf, " at distance %.3Lf from the paths", distTo(g, p));
-        v.fail("sample " + O::ptStr(p) + buf + ": solution winding " + std::to_string(w.w) + (w.on ? " (on boundary)" : "") + ", expected " + std::to_string(want) + cfg);
-        return v;
       }
     }
   v.nontrivial = (has2 && has3) || selfx;
@@ -213,7 +240,7 @@ Case gen() {
   c.d["ml"] = G::chance(20) ? G::real(0.0, 1.0) : G::real(1.0, 5.0);
   c.d["at"] = G::coin() ? 0.0 : G::real(0.05, 3.0);
   c.i["rev"] = G::range(0, 1);
-  c.i["route"] = G::chance(40) ? 0 : G::range(1, 3);
+  c.i["route"] = G::chance(40) ? 0 : G::range(1, 4);
   double kf = std::max(c.d["ml"], std::sqrt(2.0));
   int n = (int)G::range(1, 4);
   Paths64 paths;
